@@ -246,8 +246,8 @@ def guarded_run(session, ctx):
 def run_check(pid, session, tier, seed, replay_path=None):
     """the verdict logic of DESIGN §2.3; returns the process exit code"""
     t0 = time.time()
-    REPLAYS.mkdir(exist_ok=True)
-    EVID.mkdir(exist_ok=True)
+    REPLAYS.mkdir(parents=True, exist_ok=True)
+    EVID.mkdir(parents=True, exist_ok=True)
     lean = lean_stage(pid, tier == "thorough")
     # a (changed) implementation reading garbage may ask numpy for tens of gigabytes: make that a MemoryError in the
     # call (which the sessions record as "raised") instead of letting the whole check be killed by the OOM killer
